@@ -16,7 +16,70 @@ struct Case {
     int                  width{1};
     int                  alias{0}; // 1: strings also hold look-alike code points (jm::look_alike_cps); absent in older replay files
     std::vector<uint64_t> nums;    // enumeration cases: the document is the array of these doubles (bit patterns)
+    unsigned              huge_a{0}, huge_b{0}, huge_esc{0}; // "huge-strings" cases: ["<huge_a units>", "<huge_b units>"], the second with an escape in it or not
 };
+
+// Two strings of a million units and more in one array, in both orders: the stream that Stringify() writes to is already large when a
+// single run several times its capacity arrives (and the same in the parser's scratch stream when the run follows an escape). The text
+// is compared unit for unit with the one spelled here, parsed back and compared with the strings.
+template <typename Char_T>
+std::string huge_case(unsigned a, unsigned b, unsigned esc) {
+    auto fill = [](String<Char_T> &str, unsigned n, unsigned salt, unsigned esc_at) {
+        Char_T *p = str.Storage();
+        for (unsigned i = 0; i < n; ++i) {
+            p[i] = Char_T('a' + ((i * 7 + salt) % 26));
+        }
+        if (esc_at != 0 && esc_at < n) {
+            p[esc_at] = Char_T('"');
+        }
+    };
+    Value<Char_T> v;
+    {
+        String<Char_T> sa{SizeT(a)}, sb{SizeT(b)};
+        fill(sa, a, 1, 0);
+        fill(sb, b, 2, esc != 0 ? 5 : 0);
+        v += Memory::Move(sa);
+        v += Memory::Move(sb);
+    }
+    StringStream<Char_T> out;
+    v.Stringify(out, 17U);
+    const size_t want_len = 2 + a + 3 + b + (esc != 0 ? 1 : 0) + 2;
+    if (size_t(out.Length()) != want_len) {
+        return "text has " + std::to_string(out.Length()) + " units, expected " + std::to_string(want_len);
+    }
+    {
+        const Char_T *t = out.First();
+        size_t        k = 0;
+        auto          expect_unit = [&](uint32_t u) { return jm::unit_of(t[k++]) == u; };
+        bool          ok = expect_unit('[') && expect_unit('"');
+        for (unsigned i = 0; ok && i < a; ++i) {
+            ok = expect_unit('a' + ((i * 7 + 1) % 26));
+        }
+        ok = ok && expect_unit('"') && expect_unit(',') && expect_unit('"');
+        for (unsigned i = 0; ok && i < b; ++i) {
+            if (esc != 0 && i == 5) {
+                ok = expect_unit('\\') && expect_unit('"');
+            } else {
+                ok = expect_unit('a' + ((i * 7 + 2) % 26));
+            }
+        }
+        ok = ok && expect_unit('"') && expect_unit(']');
+        if (!ok) {
+            return "text differs from the spelled document at unit " + std::to_string(k - 1);
+        }
+    }
+    Value<Char_T> back = JSON::Parse(out.First(), out.Length());
+    if (!back.IsArray() || back.Size() != 2 || back.GetValue(0) == nullptr || back.GetValue(1) == nullptr || !back.GetValue(0)->IsString() || !back.GetValue(1)->IsString()) {
+        return "the text does not parse back to an array of two strings";
+    }
+    for (int w = 0; w < 2; ++w) {
+        const Value<Char_T> *x = back.GetValue(SizeT(w)), *y = v.GetValue(SizeT(w));
+        if (x->Length() != y->Length() || memcmp(x->StringStorage(), y->StringStorage(), size_t(x->Length()) * sizeof(Char_T)) != 0) {
+            return "string " + std::to_string(w) + " differs after the round trip";
+        }
+    }
+    return "";
+}
 
 struct Flags {
     bool needs_escape{false}, removed{false}, real{false}, pointer{false}, illformed{false}, control{false};
@@ -440,7 +503,45 @@ struct H {
     static const char *name() { return "C08 stringify/parse round trip and validity"; }
     // "least-slack-<M>": arrays of 8 doubles walked with an even stride through the 12 binades whose top lies closest above a power of
     // ten (see C11), M million doubles per shard
+    static std::string huge_run(const Case &c) {
+        return c.width == 1 ? huge_case<char>(c.huge_a, c.huge_b, c.huge_esc) : c.width == 2 ? huge_case<char16_t>(c.huge_a, c.huge_b, c.huge_esc)
+                                                                                               : huge_case<char32_t>(c.huge_a, c.huge_b, c.huge_esc);
+    }
     static void enumerate(pbt::Ctx &ctx, unsigned shard, unsigned nshards, const std::string &what) {
+        if (what == "huge-strings") {
+            Qentem::MemoryRecord::data().enabled = false;
+            ctx.check_ledger                     = false;
+            static const unsigned pairs[][2] = {{1258291, 16777216 + 5}, {16777216 + 5, 1258291}, {4404019, 13000000}, {700000, 9000000}, {1048577, 5242881}, {2097153, 2097153}};
+            unsigned              idx        = 0;
+            for (auto &pr : pairs) {
+                for (unsigned esc = 0; esc < 2; ++esc) {
+                    for (int w : {1, 2, 4}) {
+                        if ((idx++ % nshards) != shard) {
+                            continue;
+                        }
+                        Case c;
+                        c.width = w, c.huge_a = pr[0], c.huge_b = pr[1], c.huge_esc = esc;
+                        ctx.set_cur(to_text(c));
+                        ++ctx.evaluations;
+                        ++ctx.nontrivial_counted;
+                        ++ctx.nontrivial_total;
+                        const std::string why = huge_run(c);
+                        if (!why.empty()) {
+                            ctx.failed    = true;
+                            ctx.fail_cls  = "huge-strings";
+                            ctx.fail_msg  = "[\"" + std::to_string(c.huge_a) + " units\",\"" + std::to_string(c.huge_b) + " units\"] in " + std::to_string(w) + "-byte units: " + why;
+                            ctx.fail_text = to_text(c);
+                            ctx.write_stats();
+                            return;
+                        }
+                    }
+                }
+            }
+            ctx.distinct_by_construction = true;
+            ctx.exhaustive               = true;
+            ctx.exhaustive_what          = "huge strings: 6 pairs of lengths (0.7 Mi .. 16 Mi units) x escape or none x 3 unit widths, sharded";
+            return;
+        }
         if (what.compare(0, 12, "least-slack-") != 0) {
             fprintf(stderr, "unknown enumeration %s\n", what.c_str());
             exit(3);
@@ -524,6 +625,10 @@ struct H {
         kv.put("bytes", hex);
         kv.put("width", c.width);
         kv.put("alias", c.alias);
+        if (c.huge_a != 0) {
+            kv.put("huge", std::to_string(c.huge_a) + "," + std::to_string(c.huge_b) + "," + std::to_string(c.huge_esc));
+            return kv.text();
+        }
         if (!c.nums.empty()) {
             std::string t;
             char        b[24];
@@ -545,6 +650,9 @@ struct H {
         }
         c.width = int(kv.geti("width", 1));
         c.alias = int(kv.geti("alias", 0));
+        if (kv.has("huge")) {
+            sscanf(kv.get("huge").c_str(), "%u,%u,%u", &c.huge_a, &c.huge_b, &c.huge_esc);
+        }
         if (kv.has("nums")) {
             std::string t = kv.get("nums");
             for (size_t i = 0; i + 16 <= t.size(); i += 17) {
@@ -554,6 +662,14 @@ struct H {
         return c;
     }
     static void run(const Case &c, pbt::Ctx &ctx) {
+        if (c.huge_a != 0) {
+            ctx.nontrivial();
+            const std::string why = huge_run(c);
+            if (!why.empty()) {
+                ctx.fail("huge-strings", why);
+            }
+            return;
+        }
         if (!c.nums.empty()) {
             switch (c.width) {
                 case 1: run_numbers<char>(c, ctx); break;
